@@ -74,6 +74,10 @@ func allFaults(nCalls int) []memstore.Fault {
 		}
 	}
 	fs = append(fs, memstore.Fault{Kind: memstore.FaultCommit})
+	// a deadlock at call k, then a failing COMMIT of the retried attempt
+	for k := 1; k <= nCalls; k++ {
+		fs = append(fs, memstore.Fault{At: k, Kind: memstore.FaultDeadlock, AndCommit: true})
+	}
 	return fs
 }
 
@@ -124,10 +128,12 @@ func init() {
 				in.Prefix = append(in.Prefix, op)
 			}
 			kind := WriteKinds[i%len(WriteKinds)]
+			dry := (i/len(WriteKinds))%2 == 1
 			// prefer an op that succeeds on this state (up to 6 draws), keep the last draw otherwise
 			var op Op
 			for try := 0; try < 6; try++ {
 				op = genOpOfKind(c, g, n, kind)
+				op.Dry = dry
 				probe, _ := replayPrefix(in.Strict, in.Prefix)
 				o := probe.Run(BaseCtx(), op)
 				if o.Resp.Err == "" && o.Resp.Panic == "" && !o.Resp.Hit {
